@@ -14,7 +14,7 @@ META = dict(
     explanation='Line framing: one symbolic text of concrete length L (every character a solver variable over the whole str alphabet, newlines wherever the solver puts them) is cut at two positions (first concrete per obligation, second symbolic; empty chunks included) '
                 'and fed to the real line.unframe: the emitted lines (on a subscription that follows an aborted one of the same operator object) must be text.split("\\n") without a trailing empty piece - in particular an unterminated last line is delivered at completion. A second form frames n symbolic newline-free items with the real frame, '
                 're-cuts the concatenation and unframes. Length-prefix framing: items with symbolic payload bytes are framed by the real frame (prefix 1/2/4/8 bytes, little/big endian), the concatenation is cut at two solver-chosen positions '
-                '(inside a prefix, between prefix and payload, inside a payload) and the real unframe must return the items in order; with a solver-chosen truncation point exactly the completely received frames are delivered and an incomplete trailing frame never is.',
+                '(inside a prefix, between prefix and payload, inside a payload) and the real unframe must return the items in order; with a solver-chosen truncation point exactly the completely received frames are delivered and an incomplete trailing frame never is; with symbolic prefix bytes (any announced length the prefix can carry) followed by one payload byte, only lengths 0 and 1 deliver anything.',
     bounds=dict(quick='line: L <= 4 characters, 2 cuts; items: <= 2 items of <= 2 chars; length-prefix: <= 2 items of <= 2 bytes (3 for prefix 1), all cut pairs, all truncation points, 4 prefix sizes x 2 byte orders',
                 thorough='line: L <= 6, 3 cuts for L <= 4; length-prefix: <= 3 items of <= 2 bytes, 3 cuts'),
     outside='items longer than the bound; length-prefix items of 2^(8*prefix) bytes and more (frame compares len > mtu where >= is meant: needs a 256-byte item at least)',
@@ -136,6 +136,32 @@ def lp_roundtrip(p):
     return mk('lp_roundtrip', sig, pre, body)
 
 
+def lp_prefix(p):
+    """the length carried by a prefix is a solver variable: the prefix bytes are symbolic (any value 0 .. 2^(8*prefix)-1, i.e. also lengths far beyond
+    the payload sizes of the other obligations), followed by exactly one payload byte.  unframe must deliver b'' (length 0, then keep the byte as the start of
+    the next prefix), the byte (length 1) or nothing (an incomplete frame is never delivered)."""
+    ps, bo = p['prefix'], p['order']
+    sig = [('b%d' % i, 'int') for i in range(ps)] + [('x', 'int')]
+    pre = ['0 <= b%d <= 255' % i for i in range(ps)] + ['0 <= x <= 255']
+
+    def body(a):
+        pb, x = list(a[:ps]), a[ps]
+        size = 0
+        for i, b in enumerate(pb if bo == 'little' else list(reversed(pb))):
+            size = size + b * (256 ** i)
+        data = bytes(pb) + bytes([x])
+        got = _with_stub(lambda: _run([data], lp.unframe(prefix_size=ps, byteorder=bo)))
+        if size == 0:
+            # the byte after an empty frame starts the next prefix; with a one-byte prefix it IS the next prefix: a zero announces another empty frame
+            exp = [b''] + ([b''] if (ps == 1 and x == 0) else []) + ['END']
+        elif size == 1:
+            exp = [bytes([x]), 'END']
+        else:
+            exp = ['END']
+        return got == exp or fail(prefix_bytes=pb, order=bo, announced_length=size, observed=got, expected=exp)
+    return mk('lp_prefix', sig, pre, body)
+
+
 def stub_valid(p):
     def run():
         ok = tinyio.validate()
@@ -148,7 +174,7 @@ def stub_valid(p):
     return run
 
 
-FAMILIES = {'line_rechunk': line_rechunk, 'line_items': line_items, 'lp_roundtrip': lp_roundtrip, 'stub_valid': stub_valid}
+FAMILIES = {'line_rechunk': line_rechunk, 'line_items': line_items, 'lp_roundtrip': lp_roundtrip, 'lp_prefix': lp_prefix, 'stub_valid': stub_valid}
 
 
 def obligations(tier, seed):
@@ -170,6 +196,9 @@ def obligations(tier, seed):
                 for mode in ('cuts', 'trunc'):
                     obs.append(Ob(PROP, 'lp_roundtrip', dict(lens=lens, prefix=ps, order=bo, mode=mode), budget=b, group='lp:' + mode,
                                   bound=dict(payload_lengths=lens, prefix=ps, byteorder=bo, mode=mode)))
+    for ps in (1, 2, 4, 8):
+        for bo in ('little', 'big'):
+            obs.append(Ob(PROP, 'lp_prefix', dict(prefix=ps, order=bo), budget=b, group='lp_prefix', bound=dict(prefix=ps, byteorder=bo, announced_length='any value the prefix can carry')))
     obs.append(Ob(PROP, 'line_rechunk', dict(L=3, c1=1, _twin='reach'), budget=60, expect='refute'))
     obs.append(Ob(PROP, 'lp_roundtrip', dict(lens=[1, 2], prefix=2, order='big', mode='trunc', _twin='reach'), budget=60, expect='refute'))
     return obs
